@@ -442,6 +442,7 @@ def build_catalogue(gg, scgf, acc):
     from sc3.synth.ugens import inout as iou
     ns = gg.namespace()
     out = []
+    skipped = []
     classes = own = 0
     for name, cls in sorted(ugns.installed_ugens.items()):
         if not isinstance(cls, type) or issubclass(cls, iou.AbstractControl) \
@@ -459,7 +460,8 @@ def build_catalogue(gg, scgf, acc):
                 continue
             sigtxt = {'ar': 'SinOsc.ar(440)', 'kr': 'SinOsc.kr(3)'}.get(m, '0.5')
             kw = []
-            for p in params:
+            for pk, p in enumerate(params):
+                k_first = pk == 0 or p.name != 'freq'
                 if p.kind not in (p.POSITIONAL_OR_KEYWORD, p.KEYWORD_ONLY):
                     kw = None
                     break
@@ -468,6 +470,10 @@ def build_catalogue(gg, scgf, acc):
                     kw.append((p.name, '2', False))
                 elif p.name in LIST_NAMES:
                     kw.append((p.name, f'[{{bad}}, {sigtxt}]', True))
+                elif p.name in SIGNAL_NAMES and k_first:
+                    # signal inputs get a signal of the unit's rate even when
+                    # they have a numeric default (filters reject scalars)
+                    kw.append((p.name, sigtxt, True))
                 elif isinstance(d, (int, float)) and not isinstance(d, bool):
                     kw.append((p.name, repr(d), True))
                 elif d is p.empty:
@@ -499,9 +505,12 @@ def build_catalogue(gg, scgf, acc):
         if found:
             classes += 1
             own += fam != 'default-check'
+        elif any(getattr(cls, m, None) for m in ('ar', 'kr', 'ir', 'new')):
+            skipped.append(name)
     acc.extra['catalogue'] = {
         'entries': len(out), 'classes': classes,
         'classes_with_own_input_check': own,
+        'classes_without_usable_call': skipped,
         'families': sorted({e['family'] for e in out})}
     _CATALOGUE = out
     return out
